@@ -385,6 +385,17 @@ def run(ctx):
             fs = inst(rng, kinds, esz=rng.choice([4, 8]))
             cases.append({"data": x.hex(), "filters": fs})
             meta.append((x, fs, "large"))
+    # maximally compressible large chunks at every deflate strength (the stored chunk is ~1000x smaller than the payload:
+    # any reader-side limit derived from the stored size must still admit what the writer produced; seeded change C08-c)
+    for n in ([1 << 20, 1 << 21] if quick else [1 << 20, 1 << 21, 1 << 22, 1 << 24]):
+        for level in ([1, 4, 6, 9] if quick else range(1, 10)):
+            for kind in ("zeros", "ff"):
+                x = gen_payload(rng, kind, n)
+                fs = [{"t": "deflate", "level": level}]
+                if level in (6,):
+                    fs = [{"t": "shuffle", "esz": 8}] + fs + [{"t": "fletcher32"}]
+                cases.append({"data": x.hex(), "filters": fs})
+                meta.append((x, fs, "large"))
     for n in [65536, 100000 // 8 * 8, 300000 // 8 * 8]:
         for kinds in rng.sample(orders[1:], 4 if quick else 20):
             x = gen_payload(rng, rng.choice(PAYLOAD_KINDS), n)
